@@ -84,6 +84,15 @@ CLAIMED["C18"] = (
     "Trusted: Lean kernel + propext/Classical.choice/Quot.sound; SHA-256 (and UTF-8) treated as injective (parameter H); GPG replaced by a stand-in; base64/fromhex from the standard library; YAML loading outside the model; floats, dates, binaries outside the quantifier; harness generators, canonicaliser and oracle.",
     "DESIGN.md §6 C18")
 
+CLAIMED["C05"] = (
+    "Lean 4 model of SpecSet registration (fold over the class-creation history) composed with the proved engine model IV.Dr; invariants of the IGNORE table + run_view locality; correspondence on real SpecSet/RegistryPoint/datasource objects and on the LIVE registration of the shipped spec sets",
+    "Proof (all histories, contexts, outcomes): registration computes deps = all implementations in order and handlers(name, ctx) = L (registration_lists); earlier-for-context implementations are told to ignore the context and only they are "
+    "(earlier_ignored, ignore_only_earlier), hence are never invoked (via C02's fires/process_cases); the latest is not ignored; other-context implementations are silent; the point equals the supplier's entry or is absent (point_value_partial, under the "
+    "hypothesis that every implementation is bound to its contexts); the grandchild scope lemma. The full statements PointValueFull / LatestRunnableRunsFull are refuted by Lean witnesses = two known findings reproduced on the code each run "
+    "(context-free-implementation, context-through-registry-point). Tied: 4 correspondence streams (registration, supplier rule, evaluation with every context/outcome, shipped spec sets: 848 points, 8 contexts).",
+    "Trusted: Lean kernel + propext/Classical.choice/Quot.sound; harness generators, adapters, oracle; the contexts handed to the model come from the generator's own tree walk (validated by the IGNORE comparison); nested re-declared RegistryPoints and flag propagation are not modelled; engine atomicity / Valid orders as in C01-C04.",
+    "DESIGN.md §6 C05")
+
 PENDING_REASON = "check not built yet in this round (planned: DESIGN.md §6); no claim is made until its model, theorems and correspondence run exist"
 
 
